@@ -251,6 +251,8 @@ class Env:
         self.delivered_canon = []
 
     async def _conn_body(self, connected):
+        for _ in range(getattr(self, "conn_sub_slow", 0)):
+            await asyncio.sleep(0)            # an application whose connection callback takes a few loop passes
         if connected and self.conn_sub_sends:
             # like the API objects: the connection subscriber sends a request from inside the notification
             sid, kind, policy = self.conn_sub_sends.pop(0)
@@ -537,6 +539,8 @@ class Env:
                     self.raise_conn_sub = bool(op[2])
                 else:
                     self.raise_msg_sub = bool(op[2])
+            elif k == "subslow":
+                self.conn_sub_slow = int(op[1])
             elif k == "subsend":
                 _, sid, kind, policy = op
                 self.conn_sub_sends.append((sid, kind, policy))
@@ -557,6 +561,7 @@ class Env:
         net.fail_first_write = False
         net.block_first = False
         self.conn_sub_sends = []
+        self.conn_sub_slow = 0
         self.raise_conn_sub = False
         self.raise_msg_sub = False
         for c in net.conns:
